@@ -30,7 +30,7 @@ CHECKS.update({
    text="apply_constraint and the seven rule functions on 1-6 symbolic scales (equal outputs, = independent rule formula, symmetry, min<=mean<=max, hmean<=gmean<=amean); for every op with a constraint argument and every valid name, forward factor = constrained gradient factors = rule(unconstrained factors) for all shapes, weight/bias factors unaffected, None keeps each ideal value; unknown names raise ValueError (one symbolic path + reflection over the module namespace, labelled enumeration).",
    note=S_NOTE, technique="symbolic execution; z3 NRA (roots as fresh positives); replay"),
  "C06": dict(engine="symtorch", category="model_checking", design_ref="DESIGN.md §4 C06",
-   text="Real residual_split/residual_add/residual_apply with symbolic tau per layer, opaque x of any shape and an uninterpreted differentiable branch function: output and gradient at x equal the closed form (x + tau f(x))/sqrt(1+tau^2) and its derivative, the branch sees the unattenuated upstream gradient, weights' squares sum to 1; sequential and nested stacks (quick depth <= 3, thorough <= 8).",
+   text="Real residual_split/residual_add/residual_apply with symbolic tau per layer, opaque x of any shape and an uninterpreted differentiable branch function: output and gradient at x equal the closed form (x + tau f(x))/sqrt(1+tau^2) and its derivative, the branch sees the unattenuated upstream gradient, weights' squares sum to 1; sequential and nested stacks (quick depth <= 3, thorough <= 4 sequential / 3 nested: deeper stacks exceed z3's reach).",
    note=S_NOTE + " Branch function is an uninterpreted symbol: holds for every differentiable branch.", technique="symbolic execution with an uninterpreted branch function; z3 NRA; replay"),
  "C07": dict(engine="symtorch", category="model_checking", design_ref="DESIGN.md §4 C07",
    text="The real transformer_residual_scaling_rule executed with symbolic residual_mult, residual_attn_ratio in [1/16,16], symbolic depth L <= 2^20 and branch index (both parities): z3 proves tau_k^2 = alpha_k^2/D_k and the inductive step of the contribution invariant, plus base case and the five final claims => all depths at once; unrolled cross-check for small depths with a call history on the shared rule object; TransformerStack wiring structurally.",
